@@ -29,7 +29,8 @@ def main(run):
                 "labels, differences and '.', constants, .repeat, .include) assembled at bases 0o1000 0o40000 0o157776 0o177776; "
                 "non-trivial = accepted program with at least one instruction and at least one absolute address word (a word whose "
                 "predicted value moves with the base); distinct by abstract program")
-    recs, inc = explore(run, "RelocAlphabet", "RelocIncFiles", 4 if thorough else 3, 1, BASES, label="AsmCore relocation exhaustive")
+    recs, inc = explore(run, "RelocAlphabet", "RelocIncFiles", 4 if thorough else 3, 1, BASES if thorough else [512, 57342, 65534],
+                        label="AsmCore relocation exhaustive")
     tasks = replay_all(run, recs, inc, {"harness_link": True, "check_syms": False}, nontrivial)
     recs4, inc4 = explore(run, "RelocCoreAlphabet", "RelocIncFiles", 5 if thorough else 4, 1, BASES,
                           label=f"AsmCore relocation core, all programs of <= {5 if thorough else 4} statements")
